@@ -88,3 +88,32 @@ Proof.
   cbn [length] in L. injection L as L. rewrite L.
   clear. revert now. induction n as [|n IH]; intros now; cbn [self_timed length]; [reflexivity|]. now rewrite IH.
 Qed.
+
+(* one run over any set of count files: an entry is in a report iff it is the
+   entry of a finished file, under the week named by that file's end date and
+   under its program; every file is either reported or left, never both *)
+Theorem run_entries_spec files start wk p n :
+  In (wk, p, n) (run_entries files start) <->
+  exists e, In (p, e, n) files /\ uploader_consumes e start = true /\ wk = uploader_week e.
+Proof.
+  unfold run_entries. rewrite in_map_iff. split.
+  - intros [[[p0 e0] n0] [E H]]. apply filter_In in H. destruct H as [Hin Hc].
+    injection E as E1 E2 E3. subst. exists e0. repeat split; assumption.
+  - intros [e [Hin [Hc ->]]]. exists (p, e, n). split; [reflexivity|].
+    apply filter_In. split; assumption.
+Qed.
+
+Theorem run_leaves_spec files start p e n :
+  In (p, e, n) (run_leaves files start) <-> In (p, e, n) files /\ uploader_consumes e start = false.
+Proof.
+  unfold run_leaves. rewrite filter_In. split; intros [H1 H2]; (split; [exact H1|]);
+    destruct (uploader_consumes e start); cbn in *; congruence.
+Qed.
+
+Theorem run_partition_length files start :
+  (length (run_entries files start) + length (run_leaves files start) = length files)%nat.
+Proof.
+  unfold run_entries, run_leaves. rewrite map_length.
+  induction files as [|[[p e] n] l IH]; cbn [filter length]; [reflexivity|].
+  destruct (uploader_consumes e start); cbn [negb length]; lia.
+Qed.
